@@ -19,11 +19,13 @@ from xh.taxo import fork_int, NoTracing
 
 P = json.loads(os.environ.get('XH_PARAMS', '{}') or '{}')
 KS = KmerSpec(4, 'AT')
-# two small genomes of three contigs: prefix occurrences on both strands, flush with contig ends, mixed case, N runs,
+# small genomes of three contigs: prefix occurrences on both strands, flush with contig ends, mixed case, N runs,
 # a contig shorter than prefix + k, and a k-mer that would only exist across a contig boundary (AT | GCAC)
 GENOMES = [
     [b'ATGCACttatgNNATCCGAgcat', b'GCACATTTAAT', b'AT'],
     [b'cccATaaaaTTTTATggggnATACGT', b'ACGTAT', b'TTGGCCAATNNNNatCAGT'],
+    # contigs that are exactly prefix + k long and carry a k-mer found nowhere else (forward / reverse strand)
+    [b'ATGGCA', b'ttccAT', b'ccgcgccNNat'],
 ]
 PERMS = list(itertools.permutations(range(3)))
 WIDTHS = [1, 7, 60, 10 ** 6]
